@@ -39,7 +39,7 @@ LEVEL_NOTE = "Trusted: the scalar interval rule and closed-form survival (only u
 
 TOL = 1e-10
 RECOMPUTE_DRIVERS = ("mixed", "hump", "pos")  # these cases run on a stock that was computed before with other parameters and driver
-QUADS_Q = [("start", 1), ("middle", 1), ("end", 1), ("middle", 4)]
+QUADS_Q = [("start", 1), ("middle", 1), ("end", 1), ("end", 4)]  # n > 1 together with a non-default inflow_at (which is then ignored, as documented)
 EXTRAS = ([], [("p", 2)], [("p", 2), ("q", 2)])
 SHAPES = {0: [("scalar", "scalar"), ("t", "scalar"), ("T", "scalar")], 1: [("scalar", "scalar"), ("pt", "p")], 2: [("scalar", "scalar"), ("qp", "tq")]}
 
